@@ -395,6 +395,8 @@ class HistoryGen:
         self.meta = []              # free-form: expected outcome etc.
         self.parsed = []            # (slot, raw schema, defined, shared: parsed against a caller-supplied dict)
         self.raws = []              # raw schema OBJECTS handed to several calls of the history
+        self.hinted = []            # (schema argument, raw, [datum objects]) for '-type' hints, data objects reused across calls
+        self.legacy = []            # (file bytes, valid reader schema): hand-built files with a mismatching default in the header
         self.dflt = []              # (schema argument, raw, defined): schemas with defaulted fields, shared by many calls
         self.dicts = []             # (slot, {short name: raw schema})
         self.k = 0
@@ -670,6 +672,83 @@ class HistoryGen:
                 recs = [dg.gen(wraw) for _ in range(rng.randrange(1, 4))]
                 self.emit({"api": "reader", "data": container(wraw, recs, defined, "null"), "reader_schema": arg}, "(CRead [])", expect="ok")
 
+    # --- '-type' hints, the same datum objects handed to several calls -------------------------------
+    def c_union_hints(self):
+        """unions of 2-3 look-alike record branches; dict data with a '-type' hint naming the 2nd/3rd branch (and tuple
+        notation); the SAME datum objects are handed to several calls of the history"""
+        rng = self.rng
+        if self.hinted and rng.random() < 0.7:
+            arg, raw, data = rng.choice(self.hinted)
+        else:
+            nb = rng.randrange(2, 4)
+            ftypes = rng.choice([["long", "string"], ["int"], ["string", ["null", "long"]]])
+            branches = [{"type": "record", "name": nm, "fields": [{"name": "x%d" % i, "type": t} for i, t in enumerate(ftypes)]}
+                        for nm in ["A", "B", "C"][:nb]]
+            raw = {"type": "record", "name": rng.choice(["R", "H"]), "fields": [
+                {"name": "u", "type": branches},
+                {"name": "l", "type": {"type": "array", "items": ["null"] + [b["name"] for b in branches]}},
+                {"name": "n", "type": "long"}]}
+            defined = {b["name"]: b for b in branches}
+
+            def inner(hint_kind):
+                b = rng.choice(branches[1:])
+                body = {f["name"]: DataGen(rng, "write", defined).gen(f["type"]) for f in b["fields"]}
+                if hint_kind == "dict":
+                    return dict({"-type": b["name"]}, **body)
+                if hint_kind == "tuple":
+                    return (b["name"], body)
+                return body
+            data = []
+            for _ in range(2):
+                kind = rng.choice(["dict", "dict", "dict", "tuple", "none"])
+                data.append({"u": inner(kind), "l": [inner(rng.choice(["dict", "tuple"])) for _ in range(rng.randrange(0, 3))],
+                             "n": rng.randrange(100)})
+            arg = raw
+            if rng.random() < 0.5:
+                out = self.fresh_slot("P")
+                self.emit({"api": "parse_schema", "schema": raw, "$out": out}, "CParse", expect="ok")
+                self.parsed.append((out, raw, defined, False))
+                arg = {"$slot": out}
+            self.hinted.append((arg, raw, data))
+        for _ in range(rng.choice([1, 2])):
+            d = rng.choice(data)                                     # the same OBJECT every time it is picked
+            k = rng.choice(["schemaless_writer", "schemaless_writer", "writer", "json_writer", "validate"])
+            if k == "schemaless_writer":
+                self.emit({"api": k, "schema": arg, "record": d, "kw": rng.choice([{}, {}, {"strict": True}])}, "CWrite", expect="any", shared_data=True)
+            elif k == "writer":
+                self.emit({"api": k, "schema": arg, "records": [d] if rng.random() < 0.5 else data, "kw": rng.choice([{}, {"validator": True}])},
+                          "CWrite", expect="any", shared_data=True)
+            elif k == "json_writer":
+                self.emit({"api": k, "schema": arg, "records": [d], "kw": {}}, "CJsonWrite", expect="any", shared_data=True)
+            else:
+                self.emit({"api": k, "schema": arg, "datum": d, "kw": {"raise_errors": False}}, "CValidate", expect="any", shared_data=True)
+
+    # --- foreign / legacy files whose header schema has a mismatching field default -----------------------
+    def c_legacy_defaults(self):
+        """hand-built container files whose header schema fastavro's own parse rejects (a field default that does not match
+        the field type): read with a reader schema (default errors ignored) and without (SchemaParseException), both orders"""
+        rng = self.rng
+        if self.legacy and rng.random() < 0.75:
+            data, good = rng.choice(self.legacy)
+        else:
+            bad = rng.choice([("int", None), ("string", 5), ("long", "x"), ({"type": "array", "items": "int"}, {}), ("boolean", 0)])
+            w = {"type": "record", "name": rng.choice(["R", "Legacy"]), "fields": [
+                {"name": "a", "type": bad[0], "default": bad[1]}, {"name": "b", "type": "string"}]}
+            good = {"type": "record", "name": w["name"], "fields": [{"name": "a", "type": bad[0]}, {"name": "b", "type": "string"}]}
+            defined = {}
+            dg = DataGen(rng, "read", defined)
+            recs = [dg.gen(good) for _ in range(rng.randrange(1, 4))]
+            data = container(w, recs, defined, rng.choice(["null", "deflate"]))
+            self.legacy.append((data, good))
+        for _ in range(rng.choice([1, 2])):
+            k = rng.choice(["with", "with", "without", "without", "block"])
+            if k == "with":
+                self.emit({"api": "reader", "data": data, "reader_schema": good}, "(CRead [])", expect="ok")
+            elif k == "without":
+                self.emit({"api": "reader", "data": data}, "(CFailing (CRead []) 0%nat)", expect="raise")
+            else:
+                self.emit({"api": "block_reader", "data": data}, "(CFailing (CRead []) 0%nat)", expect="raise")
+
     # --- names that only an EARLIER call defined ---------------------------------------------
     def c_dangling_reference(self):
         """a schema that merely REFERS to a type name (defined by other schemas of the history, never by itself):
@@ -943,6 +1022,7 @@ class HistoryGen:
 
     KINDS = [("c_parse", 5), ("c_schemaless_writer", 3), ("c_schemaless_reader", 3), ("c_read_truncated", 1), ("c_read_union_of_records", 2),
              ("c_defaults", 5), ("c_dangling_reference", 2), ("c_lazy_readers", 1),
+             ("c_union_hints", 2), ("c_legacy_defaults", 2),
              ("c_read_decimal_focus", 3), ("c_writer", 3), ("c_reader", 2), ("c_reader_truncated", 1), ("c_validate", 3),
              ("c_canonical", 1), ("c_fingerprint", 1), ("c_json_writer", 2), ("c_json_reader", 1), ("c_generate", 1), ("c_load", 2)]
 
